@@ -159,6 +159,18 @@ def _one_impl(sc, algpair, idx: int, seed: int):
             fails.append(("header-differs", json.dumps(t.header)[:100]))
         if sc["keyarg"] == "keyset" and t.header.get("kid") != "the-kid":
             fails.append(("kid-missing", json.dumps(t.header)[:100]))
+        # the returned objects belong to the caller: editing them must not change what a later decode returns
+        if not fails:
+            want_h, want_c = json.dumps(t.header, sort_keys=True), json.dumps(t.claims, sort_keys=True, default=str)
+            t.header.pop("typ", None); t.header["alg"] = "none"; t.header["injected"] = True
+            if isinstance(t.claims, dict):
+                t.claims["injected"] = True
+            try:
+                t2 = jwt.decode(tok, dec_key, **kwargs)
+                if json.dumps(t2.header, sort_keys=True) != want_h or json.dumps(t2.claims, sort_keys=True, default=str) != want_c:
+                    fails.append(("second-decode-differs-after-caller-edited-first-result", json.dumps(t2.header)[:100]))
+            except Exception as e:  # noqa
+                fails.append(("second-decode-raised-after-caller-edited-first-result", type(e).__name__))
     return fails
 
 
